@@ -567,9 +567,15 @@ func hexs(s string) string { return hex.EncodeToString([]byte(s)) }
 func realScript(r *rand.Rand, chars []string) string {
 	var sb strings.Builder
 	tgt := func() string { return pick(r, "First", "LowestHP", "LowestHPRatio") }
+	// a script may assign to the names the evaluator predefines (its constants): that is state of this run's script only
+	if r.Intn(4) == 0 {
+		sb.WriteString("WIND = FIRE - WIND;\nATK_PERCENT = ATK_PERCENT + 1;\n")
+	}
 	for _, c := range chars {
 		fmt.Fprintf(&sb, "set_default_action(%s, attack(%s));\n", c, tgt())
-		switch r.Intn(5) {
+		switch r.Intn(6) {
+		case 5: // a decision that reads predefined constants
+			fmt.Fprintf(&sb, "register_skill_cb(%s, fn () { if WIND > FIRE && ATK_PERCENT < ATK_FLAT { return skill(%s); } return attack(%s); });\n", c, tgt(), tgt())
 		case 0:
 			fmt.Fprintf(&sb, "register_skill_cb(%s, fn () { return skill(%s); });\n", c, tgt())
 		case 1:
